@@ -70,6 +70,8 @@ def check_tiling(L, data, obs):
                 return ("unknown-warning", f"event {i}: {w}")
             prev_prim = None
             continue
+        if ev[0] == "!other":
+            return ("foreign-event", f"event {i} is neither a field event nor a WarningEvent: {ev[1][:160]}")
         path, t, v = ev
         if v == ELLIPSIS:
             if path == "" and t in ("Command", "Response"):
